@@ -10,8 +10,8 @@ mod world;
 fn main() {
   let args = parse_args();
   match args.prop.as_str() {
-    "C18" => drive(&args, c18::gen, c18::run),
-    "C19" => drive(&args, c19::gen, c19::run),
+    "C18" => drive(&args, c18::gen, |l| guarded("C18", || c18::run(l))),
+    "C19" => drive(&args, c19::gen, |l| guarded("C19", || c19::run(l))),
     p => {
       eprintln!("unknown property {p}");
       std::process::exit(2);
